@@ -33,7 +33,7 @@ func init() {
 
 var saltedLeaseRe = regexp.MustCompile(`/h[0-9a-f]{64}(\.[A-Za-z0-9]+)?$`)
 
-var c06Kinds = []string{"creds", "creds-1use", "creds-wrapped", "login", "login-wrapped", "token-create", "token-create-orphan", "token-create-role"}
+var c06Kinds = []string{"creds", "creds-1use", "creds-wrapped", "login", "login-wrapped", "token-create", "token-create-orphan", "token-create-role", "token-create-root", "token-create-periodic"}
 
 type c06Snap struct {
 	lease, idx, tok []string
@@ -111,6 +111,10 @@ path "auth/token/create/*" { capabilities = ["update"] }
 			return Req{Op: logical.UpdateOperation, Path: "auth/token/create-orphan", Token: caller, Data: map[string]any{"policies": []string{"p"}, "ttl": "30m"}}
 		case "token-create-role":
 			return Req{Op: logical.UpdateOperation, Path: "auth/token/create/r1", Token: caller, Data: map[string]any{"policies": []string{"p"}, "ttl": "30m"}}
+		case "token-create-root": // a root token creating a non-expiring root token
+			return Req{Op: logical.UpdateOperation, Path: "auth/token/create", Token: h0.Root, Data: map[string]any{"policies": []string{"root"}}}
+		case "token-create-periodic":
+			return Req{Op: logical.UpdateOperation, Path: "auth/token/create", Token: h0.Root, Data: map[string]any{"policies": []string{"p"}, "period": "1h"}}
 		}
 		panic(kind)
 	}
@@ -126,6 +130,23 @@ path "auth/token/create/*" { capabilities = ["update"] }
 		before c06Snap
 		after  c06Snap
 		h      *CoreH
+		accBefore, accAfter []string
+	}
+	accessors := func(h *CoreH) []string {
+		resp, err := h.Do("acc", Req{Op: logical.ListOperation, Path: "auth/token/accessors/", Token: h.Root})
+		if err != nil || resp == nil || resp.Data == nil {
+			return nil
+		}
+		var out []string
+		switch ks := resp.Data["keys"].(type) {
+		case []string:
+			out = append(out, ks...)
+		case []any:
+			for _, k := range ks {
+				out = append(out, fmt.Sprint(k))
+			}
+		}
+		return out
 	}
 	run := func(k int) *attempt {
 		d := base.Fork(s)
@@ -139,7 +160,7 @@ path "auth/token/create/*" { capabilities = ["update"] }
 		if err != nil {
 			panic(err)
 		}
-		a := &attempt{rec: rec, disk: d, h: h, before: c06Take(d)}
+		a := &attempt{rec: rec, disk: d, h: h, before: c06Take(d), accBefore: accessors(h)}
 		s.SetControlled()
 		t := s.Go(fmt.Sprintf("req%d", k), func() {
 			a.resp, a.err = h.Do(fmt.Sprintf("req%d", k), mkReq())
@@ -150,6 +171,7 @@ path "auth/token/create/*" { capabilities = ["update"] }
 		s.Drain(30*time.Second, 5*time.Second)
 		s.PassThrough()
 		a.after = c06Take(d)
+		a.accAfter = accessors(h)
 		return a
 	}
 
@@ -247,7 +269,32 @@ path "auth/token/create/*" { capabilities = ["update"] }
 			}
 			return true
 		}
-		// error: a token entry may remain only together with its lease
+		// error: "a login or token creation whose lease registration fails
+		// leaves no usable token behind". The client never saw the token, but
+		// it exists: every token that appeared during the request is looked up
+		// through its accessor (the lookup applies the token store's own
+		// validity rules, incl. "an expiring token without a lease is revoked").
+		// A token that still resolves is acceptable only if its lease was
+		// recorded (the failing step came after registration).
+		authLease := 0
+		for _, l := range newLease {
+			if strings.Contains(l, "sys/expire/id/auth/") {
+				authLease++
+			}
+		}
+		for _, acc := range added(a.accAfter, a.accBefore) {
+			r2, e2 := a.h.Do("probe", Req{Op: logical.UpdateOperation, Path: "auth/token/lookup-accessor", Token: a.h.Root, Data: map[string]any{"accessor": acc}})
+			alive := e2 == nil && r2 != nil && !r2.IsError() && r2.Data != nil
+			if !alive {
+				s.Probe("failed_creation_left_dead_accessor")
+				continue
+			}
+			if authLease == 0 {
+				s.Violate("C06", "usable-token-without-lease-after-failed-creation", sig, "the request failed, but a token it created (accessor %s, policies %v, ttl %v) still resolves and no lease was recorded for it; %s", acc, r2.Data["policies"], r2.Data["ttl"], desc)
+				return false
+			}
+			s.Probe("failed_creation_left_token_with_lease")
+		}
 		for _, tk := range newTok {
 			salted := tk[strings.LastIndex(tk, "/")+1:]
 			has := false
